@@ -1,2 +1,57 @@
-(* C05 *)
-From Grex Require Import Base.Str.
+(* C05 — repetition conversion is notation only: it changes how the language is written, not
+   the language.  (Known finding K1: once repetitions are converted the trie construction may
+   merge edges with different bounds; the language statements assume no_merge, and
+   C05_K1_witness shows that the assumption can fail.) *)
+From Grex Require Import Base.Str Model.Config Model.Cluster Model.Dfa Model.Expr Model.Pipeline.
+From Grex Require Import Proofs.Lang Proofs.Spec Proofs.RepInv Proofs.Construction
+  Proofs.PropsGlue.
+
+(* on one cluster: same language, and expanding the repetitions gives the cluster back *)
+Theorem C05_clusters : forall (lit cls : cp -> cp -> Prop) c cl,
+  Forall plain cl ->
+  leq (L_cluster lit cls (convert_repetitions c cl)) (L_cluster lit cls cl)
+  /\ expand (convert_repetitions c cl) = cl.
+Proof.
+  intros lit cls c cl H.
+  exact (conj (convert_repetitions_lang lit cls c cl H) (expand_convert c cl H)).
+Qed.
+
+(* the specification does not read f_rep, min_rep, min_len (nor any presentation setting) *)
+Theorem C05_spec_indep : forall (lit cls : cp -> cp -> Prop) c1 c2 db ws,
+  same_lang_settings c1 c2 -> leq (Spec lit cls c1 db ws) (Spec lit cls c2 db ws).
+Proof. exact Spec_settings. Qed.
+
+(* two configurations with the same class options and the same (?i) setting — in particular
+   two that differ only in f_rep / min_rep / min_len: the generated expressions denote the
+   same language *)
+Theorem C05_notation : forall (lit cls : cp -> cp -> Prop) c1 c2 db sc1 sc2 ws e1 e2,
+  f_digit c1 = f_digit c2 /\ f_non_digit c1 = f_non_digit c2 /\
+  f_space c1 = f_space c2 /\ f_non_space c1 = f_non_space c2 /\
+  f_word c1 = f_word c2 /\ f_non_word c1 = f_non_word c2 /\
+  f_ci c1 = f_ci c2 ->
+  ws <> [] ->
+  oracle_ok db (normalise c1 db ws) ->
+  no_merge (grapheme_clusters c1 db (normalise c1 db ws)) = true ->
+  no_merge (grapheme_clusters c2 db (normalise c2 db ws)) = true ->
+  Pipeline.final_expr c1 (grapheme_clusters c1 db (normalise c1 db ws)) sc1 = Some e1 ->
+  Pipeline.final_expr c2 (grapheme_clusters c2 db (normalise c2 db ws)) sc2 = Some e2 ->
+  forall u, (u <> [] \/ K4 (normalise c1 db ws) = false) ->
+    (L_expr lit cls e1 u <-> L_expr lit cls e2 u).
+Proof. exact construction_lang_settings. Qed.
+
+(* without repetition conversion no_merge holds *)
+Theorem C05_no_merge_without_rep : forall c db ws, f_rep c = false ->
+  no_merge (grapheme_clusters c db (normalise c db ws)) = true.
+Proof. exact construction_exact_default. Qed.
+
+(* K1: with repetition conversion merging does happen: "aaa", "aaaa" *)
+Theorem C05_K1_witness :
+  no_merge (grapheme_clusters Sanity.c_rep []
+              (normalise Sanity.c_rep [] [[97; 97; 97]%N; [97; 97; 97; 97]%N])) = false.
+Proof. exact Sanity.merge_happens. Qed.
+
+Print Assumptions C05_clusters.
+Print Assumptions C05_spec_indep.
+Print Assumptions C05_notation.
+Print Assumptions C05_no_merge_without_rep.
+Print Assumptions C05_K1_witness.
